@@ -157,6 +157,8 @@ impl FeoxStore {
                 if timestamp <= retired_at {
                     return Err(FeoxError::OlderTimestamp);
                 }
+                #[cfg(feoxdb_verif)]
+                crate::verif::sched("inc_create");
 
                 match self.hash_table.entry(key_vec.clone()) {
                     scc::hash_map::Entry::Occupied(_) => continue,
@@ -193,6 +195,8 @@ impl FeoxStore {
                 }
             };
 
+            #[cfg(feoxdb_verif)]
+            crate::verif::sched("inc_read");
             let root = observed.get_or_insert_with(|| Arc::clone(&current));
             if explicit_timestamp.is_some_and(|timestamp| timestamp <= current.timestamp) {
                 return Err(FeoxError::OlderTimestamp);
@@ -227,6 +231,8 @@ impl FeoxStore {
             );
             let new_value = current_value.saturating_add(delta);
             let timestamp = explicit_timestamp.unwrap_or_else(|| self.get_timestamp(key));
+            #[cfg(feoxdb_verif)]
+            crate::verif::sched("inc_guard");
 
             match self.hash_table.entry(key_vec.clone()) {
                 scc::hash_map::Entry::Occupied(mut entry) => {
@@ -262,6 +268,8 @@ impl FeoxStore {
                         self.release_memory(old_size - new_size);
                     }
                     drop(entry);
+                    #[cfg(feoxdb_verif)]
+                    crate::verif::sched("inc_post");
 
                     if !self.memory_only {
                         if self.enable_caching {
@@ -313,6 +321,8 @@ impl FeoxStore {
         let start = std::time::Instant::now();
         self.validate_key_value(key, value)?;
         let key_vec = key.to_vec();
+        #[cfg(feoxdb_verif)]
+        crate::verif::sched("iia_guard");
 
         match self.hash_table.entry(key_vec.clone()) {
             scc::hash_map::Entry::Occupied(_) => Ok(false),
@@ -479,6 +489,8 @@ impl FeoxStore {
                 Some(record) => record,
                 None => return Ok(false),
             };
+            #[cfg(feoxdb_verif)]
+            crate::verif::sched("cas_read");
             let (value, cache_hit, source) = match self.resolve_value(key, record) {
                 Ok(resolved) => resolved,
                 Err(FeoxError::KeyNotFound | FeoxError::StaleExtent) => return Ok(false),
@@ -495,6 +507,8 @@ impl FeoxStore {
             }
             source
         };
+        #[cfg(feoxdb_verif)]
+        crate::verif::sched("cas_cmp");
 
         let timestamp = self.resolve_timestamp(key, timestamp);
         self.replace_record_if_current(
@@ -517,6 +531,8 @@ impl FeoxStore {
         start: std::time::Instant,
     ) -> Result<bool> {
         let (timestamp, explicit_timestamp) = timestamp;
+        #[cfg(feoxdb_verif)]
+        crate::verif::sched("rep_guard");
         match self.hash_table.entry(key.to_vec()) {
             scc::hash_map::Entry::Occupied(mut entry) => {
                 let old_record = entry.get();
@@ -563,6 +579,8 @@ impl FeoxStore {
 
                 self.stats
                     .record_insert(start.elapsed().as_nanos() as u64, true);
+                #[cfg(feoxdb_verif)]
+                crate::verif::sched("rep_post");
 
                 if !self.memory_only {
                     if self.enable_caching {
